@@ -1,6 +1,8 @@
 """C04 -- every estimator obeys the scikit-learn protocol: parameters, clone, fitted state."""
 import inspect
 import os
+import signal
+import time
 import types
 import warnings
 
@@ -83,6 +85,21 @@ def discover(W):
             if inspect.isclass(c) and issubclass(c, BaseEstimator) and c.__module__ == m and not n.startswith("_") and not n.startswith("Base"):
                 classes[(m, n)] = c
     return classes, bad
+
+
+FIT_BUDGET_S = 3
+
+
+class _FitTimeout(Exception):
+    pass
+
+
+def _always(y, sp):
+    return True
+
+
+def _never(y, sp):
+    return False
 
 
 class C04(Harness):
@@ -323,6 +340,30 @@ class C04(Harness):
             return ["id", type(a) is type(v)]
         return ["id", a is v]
 
+    @staticmethod
+    def _deep_missing(est):
+        """keys component__param that the deep listing should contain but does not (or lists with another value)"""
+        deep = est.get_params(deep=True)
+        comps = {}
+        for k, val in est.get_params(deep=False).items():
+            if hasattr(val, "get_params") and not isinstance(val, type):
+                comps[k] = val
+            elif isinstance(val, list) and val and all(isinstance(t, tuple) and len(t) >= 2 and isinstance(t[0], str) for t in val):
+                for t in val:
+                    if hasattr(t[1], "get_params"):
+                        comps[t[0]] = t[1]
+        bad = []
+        for cn, c in comps.items():
+            if deep.get(cn) is not c:
+                bad.append(cn)
+            for sk, sv in c.get_params(deep=True).items():
+                key = "%s__%s" % (cn, sk)
+                if key not in deep:
+                    bad.append(key)
+                elif deep[key] is not sv and not (is_sym(sv) or isinstance(sv, (int, float, str, bool, type(None), list, tuple, dict))):
+                    bad.append(key + "(other object)")
+        return sorted(bad)
+
     def _composites(self, W, inp):
         NF = W.load("sktime.forecasting.naive").NaiveForecaster
         ENS = W.load("sktime.forecasting.compose._ensemble").EnsembleForecaster
@@ -388,6 +429,17 @@ class C04(Harness):
         except Exception as e:  # noqa
             stale = "other:%s" % type(e).__name__
         out["stale_name"] = {"written": ["id", True], "unknown_nested": stale, "replaced": True, "others_kept": 2, "nested_after_replace": ["id", True]}
+        # estimator-valued constructor arguments outside the named list: nested read and write, and the deep
+        # parameter listing is closed under "component__param" for every component (named or not)
+        stk = STK([("a", NF()), ("b", NF("mean"))], final_regressor=DummyRegressor(strategy="constant", constant=w))
+        stk.set_params(final_regressor__constant=v)
+        out["stacking_final"] = {"written": self._same(stk.final_regressor.constant, v), "read": self._same(stk.get_params().get("final_regressor__constant", "<no such key>"), v)}
+        cer = CE([("c0", DummyClassifier(), [0])], remainder=DummyClassifier(strategy="constant", constant=w))
+        cer.set_params(remainder__constant=v)
+        out["column_ensemble_remainder"] = {"written": self._same(cer.remainder.constant, v), "read": self._same(cer.get_params().get("remainder__constant", "<no such key>"), v)}
+        for nm, est in (("ensemble", ENS([("a", NF()), ("b", NF("mean"))])), ("multiplexer", MUX([("a", NF()), ("b", NF("mean"))], selected_forecaster="a")),
+                        ("stacking", stk), ("pipeline", PIPE([("t", DES()), ("f", NF())])), ("depth2", e2), ("tuner", gs), ("column_ensemble", cer)):
+            out["closed_" + nm] = {"written": ["id", True], "missing": self._deep_missing(est)}
         ce = CE([("c0", DummyClassifier(), [0]), ("c1", DummyClassifier(), [0])])
         try:
             ce.set_params(c1__random_state=v)
@@ -418,6 +470,7 @@ class C04(Harness):
         y, Xp, yp = self._data(W)
         out = {}
         listed = []
+        fitted_ok = []
         for (m, n), cls in sorted(self._classes.items()):
             if not issubclass(cls, SKB):
                 continue
@@ -477,9 +530,34 @@ class C04(Harness):
                     rec[meth] = "NotImplementedError"
                 except Exception as e:  # noqa
                     rec[meth] = "other:%s" % type(e).__name__
+            # generic fit protocol: whenever fit returns (no exception), it returned the object itself and the object
+            # reports fitted.  Environment failures (missing numba, removed numpy aliases, ...) are recorded, not judged.
+            def _alarm(sig, frm):
+                raise _FitTimeout()
+
+            old = signal.signal(signal.SIGALRM, _alarm)
+            try:
+                e2 = clone(est)
+                fargs = [y] if series_like else [Xp, yp]
+                t0 = time.time()
+                signal.alarm(FIT_BUDGET_S)
+                if issubclass(cls, BF):
+                    r = e2.fit(y, fh=1)
+                else:
+                    r = e2.fit(*fargs)
+                signal.alarm(0)
+                rec["fit"] = {"returns_self": r is e2, "fitted": bool(e2.is_fitted), "s": round(time.time() - t0, 2)}
+                fitted_ok.append(cname)
+            except BaseException as e:  # noqa
+                signal.alarm(0)
+                if isinstance(e, (KeyboardInterrupt, SystemExit)) or (type(e).__module__.startswith("vf.") and not isinstance(e, _FitTimeout)):
+                    raise
+                rec["fit"] = {"raised": type(e).__name__}
+            finally:
+                signal.signal(signal.SIGALRM, old)
             out[cname] = rec
             listed.append(cname)
-        self.__dict__.setdefault("_extra", {})[("unfitted-apply")] = {"classes_exercised": listed}
+        self.__dict__.setdefault("_extra", {})[("unfitted-apply")] = {"classes_exercised": listed, "fit_returned": fitted_ok}
         return out
 
     def _fit(self, W):
@@ -495,6 +573,7 @@ class C04(Harness):
         DET = W.load("sktime.transformations.series.detrend._detrend").Detrender
         DES = W.load("sktime.transformations.series.detrend._deseasonalize").Deseasonalizer
         IMP = W.load("sktime.transformations.series.impute").Imputer
+        CDES = W.load("sktime.transformations.series.detrend._deseasonalize").ConditionalDeseasonalizer
         HF = W.load("sktime.transformations.series.outlier_detection").HampelFilter
         LOGT = W.load("sktime.transformations.series.boxcox").LogTransformer
         red = W.load("sktime.forecasting.compose._reduce")
@@ -510,6 +589,9 @@ class C04(Harness):
             "Detrender(default)": (DET(), "tr"),
             "Detrender(forecaster)": (DET(NF()), "tr"),
             "Imputer": (IMP(method="mean"), "tr"),
+            "Deseasonalizer": (DES(sp=2), "tr"),
+            "ConditionalDeseasonalizer(seasonal)": (CDES(seasonality_test=_always, sp=2), "tr"),
+            "ConditionalDeseasonalizer(non-seasonal)": (CDES(seasonality_test=_never, sp=2), "tr"),
             "HampelFilter": (HF(window_length=3), "tr"),
             "LogTransformer": (LOGT(), "tr"),
         }
@@ -601,6 +683,8 @@ class C04(Harness):
                     P.check("unknown-param-rejected", r["unknown_nested"] == "ValueError", dict(d, result=r["unknown_nested"]))
                 if "names" in r:
                     P.check("component-replaced-by-name", r["names"] == ["x", "y"], d)
+                if "missing" in r:
+                    P.check("nested-param-read-write", r["missing"] == [], dict(d, missing=r["missing"][:6]))
             return
         if k == "unfitted":
             for cname, rec in out.items():
@@ -609,6 +693,9 @@ class C04(Harness):
                 for meth in APPLY:
                     if meth in rec:
                         P.check("apply-before-fit-raises-NotFittedError", rec[meth] in ("NotFittedError", "NotImplementedError"), dict(d, method=meth, result=rec[meth]))
+                fr = rec.get("fit", {})
+                if "raised" not in fr and fr:
+                    P.check("fit-returns-self-and-sets-fitted", fr["returns_self"] and fr["fitted"], dict(d, method="fit", rec={k2: str(v) for k2, v in fr.items()}))
             return
         for name, rec in out.items():
             d = {"estimator": name}
